@@ -566,6 +566,10 @@ func redactPipelineStage(stage interface{}, redactFieldNames bool, keyPath []str
 						if redactFieldNames && (!subFound || (subFound && metaVal == nil && metaOk)) {
 							redactedSubK = HashName(subK)
 						}
+						if renamed, ok := renamedFieldReference(subV, redactFieldNames); ok {
+							newSubMap.Set(redactedSubK, renamed)
+							continue
+						}
 						switch subVTyped := subV.(type) {
 						case *orderedmap.OrderedMap[string, any]:
 							newSubMap.Set(redactedSubK, redactPipelineStage(subVTyped, redactFieldNames, append(newKeyPath, subK), inSearchStage))
@@ -586,6 +590,10 @@ func redactPipelineStage(stage interface{}, redactFieldNames bool, keyPath []str
 					newMap.Set(redactedKey, HashName(name))
 					continue
 				}
+			}
+			if renamed, ok := renamedFieldReference(v, redactFieldNames); ok {
+				newMap.Set(redactedKey, renamed)
+				continue
 			}
 			if str, ok := v.(string); ok && len(str) > 0 && str[0] == '$' && !redactFieldNames {
 				newMap.Set(redactedKey, v)
@@ -608,6 +616,19 @@ func redactPipelineStage(stage interface{}, redactFieldNames bool, keyPath []str
 	default:
 		return stage
 	}
+}
+
+// renamedFieldReference gives the pseudonym of a '$field' reference met as a scalar of a pipeline stage when field names
+// are redacted (an operator name is kept), as the query and array walkers do for the same string in their positions.
+func renamedFieldReference(v any, redactFieldNames bool) (string, bool) {
+	str, ok := v.(string)
+	if !ok || !redactFieldNames || len(str) == 0 || str[0] != '$' {
+		return "", false
+	}
+	if _, isOperator := CoreOperators.Get(str); isOperator {
+		return str, true
+	}
+	return HashName(str), true
 }
 
 func redactQueryValues(obj *orderedmap.OrderedMap[string, any], redactFieldNames bool, isSearchStage bool, parentCoreOp interface{}, keyPath []string) *orderedmap.OrderedMap[string, any] {
